@@ -1,7 +1,7 @@
 """C37 — UDP acknowledgement bookkeeping is exact (DESIGN.md §4 C37).
 
 Case line:  acks.seq <prefix0> <from>:<to>,<from>:<to>,...      (`-` = no operation)
-Result:     one observation for the initial state and one after every AddAckRange, joined by ` ; `:
+Result:     `ok ` + one observation for the initial state and one after every AddAckRange, joined by ` ; `:
             p=<ackPrefix> r=<ranges> e=<checkInvariantsCommon errors> ap=<AckPrefix> ar=<AckFrom:AckTo> as=<AckSet> n=<resend ranges>
 
 The oracle below is evaluated on every implementation output whose history satisfies the wrap-free guard
@@ -17,8 +17,10 @@ THEOREMS = ["TLVerif.Props.C37." + t for t in [
     "maxAckSet_pos", "inv_meaning", "invariant_preserved", "add_set", "invariant_after_history", "set_eq_union",
     "buildAck_sound", "buildAck_exact", "buildAck_set_bound", "buildAck_complete",
     "buildNack_sound", "buildNack_exact", "buildNack_bound", "buildNack_complete", "checkInvariants_silent",
+    "state_determined_by_set", "order_irrelevant", "duplicate_irrelevant", "prefix_monotone", "haveHoles_exact",
     "guard_needed_set", "guard_needed_inv", "guard_needed_nack"]]
-SOURCES = ["TLVerif.Acks.Acks", "TLVerif.Acks.AcksLemmas", "TLVerif.Acks.AcksBuildLemmas", "TLVerif.Acks.Driver"]
+SOURCES = ["TLVerif.Acks.Acks", "TLVerif.Acks.AcksLemmas", "TLVerif.Acks.AcksBuildLemmas", "TLVerif.Acks.AcksCanonLemmas",
+           "TLVerif.Acks.Driver"]
 HERE = os.path.dirname(os.path.dirname(os.path.abspath(__file__)))
 M32 = 2**32 - 1  # the guard: to < M32
 
@@ -75,7 +77,11 @@ def guard_ok(p0, ops):
     return p0 <= M32 and all(f <= t < M32 for f, t in ops)
 
 
-def oracle(c, line, out, max_ack_set):
+def bucket(n):
+    return str(n) if n <= 3 else "4-9" if n <= 9 else "10-49" if n <= 49 else "50+"
+
+
+def oracle(c, line, out, max_ack_set, stats):
     """Evaluate the property on one implementation output. Returns True when the guard held (property applicable)."""
     w = line.split(" ")
     if len(w) != 3 or w[0] != "acks.seq":
@@ -89,8 +95,8 @@ def oracle(c, line, out, max_ack_set):
         return False
     if not guard_ok(p0, ops):
         return False
-    steps = out.split(" ; ")
-    if out in ("panic", "CRASH", "bad-op") or len(steps) != len(ops) + 1:
+    steps = out[3:].split(" ; ")
+    if not out.startswith("ok ") or len(steps) != len(ops) + 1:
         c.oracle_fail(line, "implementation gave no observation for a wrap-free history (%s)" % out[:60], line)
         return True
     iv = [(0, p0 - 1)] if p0 > 0 else []
@@ -114,6 +120,14 @@ def oracle(c, line, out, max_ack_set):
             c.oracle_fail(line, "unparseable observation %s: %s" % (where, st[:80]), line)
             return True
         starts = [a for a, _ in iv]
+        for key in ("obs:total", "obs:ranges=" + bucket(len(rs)), "obs:prefix>0" if p > 0 else "obs:prefix=0"):
+            stats[key] = stats.get(key, 0) + 1
+        if len(aset) == max_ack_set:
+            stats["obs:ackset-at-cap"] = stats.get("obs:ackset-at-cap", 0) + 1
+        if len(nack) == max_ack_set:
+            stats["obs:nack-at-cap"] = stats.get("obs:nack-at-cap", 0) + 1
+        if len(rs) > max_ack_set:
+            stats["obs:ranges>MaxAckSet"] = stats.get("obs:ranges>MaxAckSet", 0) + 1
         # (1) kept as a prefix plus sorted, disjoint, non-adjacent ranges
         shape = True
         lo = p
@@ -335,26 +349,20 @@ def run(c):
     lines += ["acks.seq", "acks.seq 0", "acks.seq x 1:2", "acks.seq 0 1:2:3", "acks.seq 0 1", "acks.seq 4294967296 -", "acks.seq 0 1:4294967296",
               "acks.seq 0 1:2,", "acks.nop 0 -", "acks.seq -1 -", "acks.seq 0 1:-2"]
 
+    lines = list(dict.fromkeys(lines))
     res = c.tie("histories", lines, impl, model,
                 nontrivial=lambda l, a: NONTRIV.search(a) is not None)
     applicable = 0
-    caps_hit = {"ackset_at_cap": 0, "nack_at_cap": 0, "ranges_ge3": 0}
+    stats = {}
     for l, a, _ in res:
-        if oracle(c, l, a, max_ack_set):
+        if oracle(c, l, a, max_ack_set, stats):
             applicable += 1
-            last = a.rsplit(" ; ", 1)[-1]
-            m = OBS.match(last)
-            if m:
-                if m.group(6) != "-" and m.group(6).count(",") + 1 == max_ack_set:
-                    caps_hit["ackset_at_cap"] += 1
-                if m.group(7) != "-" and m.group(7).count(",") + 1 == max_ack_set:
-                    caps_hit["nack_at_cap"] += 1
-                if m.group(2).count(",") >= 2:
-                    caps_hit["ranges_ge3"] += 1
+            k = "history-length:" + bucket(l.count(":"))
+            stats[k] = stats.get(k, 0) + 1
     c.count("oracle:applicable(wrap-free)", applicable)
     c.count("oracle:outside-guard(tie only)", len(lines) - applicable)
-    for k, v in caps_hit.items():
-        c.count("final-state:" + k, v)
+    for k, v in sorted(stats.items()):
+        c.count(k, v)
     c.extra["rule"] = ("lines: every history of length %d over the 36 non-empty ranges of 0..7 (observed after every step, so all shorter ones too), "
                        "all of length 2 from initial prefixes 1,2,3,5,8, %s; random histories over domains 8..3000 (up to 300 operations), "
                        "separated-ranges-then-spanning-range cases, a sliding-window arrival simulation (loss, reordering, duplicates, batches) at bases "
